@@ -76,10 +76,14 @@ package panos
 //vc:ghost var panMergeLen int
 //vc:ghost var panSrcLen int
 //vc:ghost var panLinked bool
+//vc:ghost var panLenAddr int
+//vc:ghost var panLenGrp int
+//vc:ghost var panLenSrv int
+//vc:ghost var panLenSGrp int
 //vc:func (*PanConfig).MergeSpoc$1
 // processVsysPairs calls the function with v1 == nil for a vsys of the other part only, with v2 == nil for one of this part only
 //vc:  nullable v1, v2
-//vc:  hypothesis v1 != nil || v2 != nil
+//vc:  hypothesis (v1 != nil || v2 != nil) && v1 != v2
 //vc:  init panMergeLen = 0
 //vc:  init panSrcLen = 0
 //vc:  assign at "v1.Services = append(v1.Services, v2.Services...)" panMergeLen = len(v1.Rules)
@@ -91,6 +95,12 @@ package panos
 //vc:  init panLinked = false
 //vc:  assign after "d1.Vsys = append(d1.Vsys, v1)" panLinked = len(callresult) > 0 && callresult[len(callresult) - 1] == v1 && v1.Name == v2.Name && p1 != nil && p1.Devices != nil && len(p1.Devices.Entries) > 0 && p1.Devices.Entries[0] == d1
 //vc:  ensures[C18] @newVsysLinked v1 == nil && v2 != nil ==> panLinked
+// every kind of object of the other part is carried over (service groups were forgotten: fix in /verif/known-findings.txt)
+//vc:  assign at "v1.Addresses = append(v1.Addresses, v2.Addresses...)" panLenAddr = len(v1.Addresses)
+//vc:  assign at "v1.Addresses = append(v1.Addresses, v2.Addresses...)" panLenGrp = len(v1.AddressGroups)
+//vc:  assign at "v1.Addresses = append(v1.Addresses, v2.Addresses...)" panLenSrv = len(v1.Services)
+//vc:  assign at "v1.Addresses = append(v1.Addresses, v2.Addresses...)" panLenSGrp = len(v1.ServiceGroups)
+//vc:  assert[C18] at "v1.Rules = append(top, v1.Rules...)" @allObjectKindsMerged len(v1.Addresses) == panLenAddr + len(v2.Addresses) && len(v1.AddressGroups) == panLenGrp + len(v2.AddressGroups) && len(v1.Services) == panLenSrv + len(v2.Services) && len(v1.ServiceGroups) == panLenSGrp + len(v2.ServiceGroups)
 //vc:  assert[C18] at "v1.Rules = append(top, v1.Rules...)" @noRuleLost len(top) + len(v1.Rules) == panMergeLen + panSrcLen
 //vc:  assert[C18] at "v1.Rules = append(top, v1.Rules...)" @onlyUnmarkedRulesOnTop forall j int :: 0 <= j && j < len(top) ==> top[j].Append == nil
 
